@@ -6,6 +6,16 @@ ALL = ["C%02d" % i for i in range(1, 20)]
 
 # id -> (category, technique, level text, level note, design ref)
 CLAIMED = {
+ "C07": ("exploration",
+         "model-based property testing (history interpreter vs wrapping/saturating reference model) + real-thread stress with a conservation oracle",
+         "Histories of inc/dec/set_position/update/reset/finish*/abandon*/finish_using_style/set_length/inc_length/dec_length/unset_length with arguments concentrated on the u64 boundaries are executed against a bar that really renders (pos/len/percent/bar/bytes/eta/per_sec keys) and against a wrapping/saturating model; position(), length() and the fraction seen by a draw are compared after every operation, no call may panic. Concurrent part: 1-16 OS threads on clones issue generated inc/dec patterns; the final position must be the wrapping sum of all deltas.",
+         "Trusted: the reference model; OS scheduling decides which interleavings the thread part sees (16 cores). Overflow checks are enabled in the harness build so arithmetic overflow panics as in a debug build.",
+         "DESIGN.md 3 C07"),
+ "C09": ("exploration",
+         "property-based testing under a virtual clock: invariant laws, metamorphic twin comparison (history indifference) and exact-rate oracle for steady progress",
+         "The harness owns the monotonic clock, so (gap, position) histories with gaps from 1 ms to 10 days cost nothing. Laws checked at every instant: per_sec finite, >= 0 and <= the largest observed rate; eta == remaining/per_sec recomputed at the same frozen instant; duration == elapsed + eta; decay to ~0 after an hour of stall; monotone decay during a stall. Steady progress at irregular cadence must report the exact rate (1e-9). Two bars with different pre-histories must be bit-identical after reset_eta/reset_elapsed/reset/a common backwards seek.",
+         "Trusted: clock_gettime interposition (self-tested at start-up). The recorded known finding F-C09 (rate can rise during a stall after a rate change) is excluded by signature+kind and reported as KNOWN-FINDING.",
+         "DESIGN.md 3 C09"),
  "C10": ("exploration",
          "property-based testing: crash-oracle over arbitrary/mutated strings + grammar-based generation with a reference renderer (round-trip of the documented template grammar)",
          "Totality: arbitrary Unicode strings, strings over the template alphabet and grammar-generated templates with random character edits go through with_template()/template() under catch_unwind. Fidelity: templates are generated from the documented grammar as a list of parts (literals with doubled braces, '{'+whitespace, newlines, placeholders with align/width/!/style over harness-registered custom keys, state-independent built-ins and unknown keys, widths up to 2^32) and the lines captured from a 65535-column terminal must equal the in-order concatenation of the parts' reference expansions, line by line. Search only.",
